@@ -859,7 +859,44 @@ def collect(ix, R):
                 key='; '.join(why), detail='; '.join(why), loc=f.loc())
 
 
+def setup_flags(ix, R):
+    """9.setup: the input file's `<param>:fit` decides whether a parameter is fitted - True enables it, False disables it,
+    whatever the optimizer happens to be fitting at that moment (before the first compile fit_names is empty, and
+    log-space parameters are listed as log_<name>)."""
+    site = 'taurex/parameter/parameterparser.py::ParameterParser.setup_optimizer'
+    f = ix.func(site)
+    fl = mkflow(ix, site)
+    stmt = "`<param>:fit = True` enables the fit of that parameter and `= False` disables it, unconditionally"
+    en = [e for e in calls(fl, 'enable_fit') if e.loops]
+    di = [e for e in calls(fl, 'disable_fit') if e.loops]
+    if len(en) != 1 or len(di) != 1:
+        R.error('9.setup', 'DOM', site, stmt, '%d enable_fit / %d disable_fit calls in the loop' % (len(en), len(di)), loc=f.loc())
+        return
+    lp = en[0].loops[0]
+    item = fl.tab.atom('elem', (lp.iter_rf[0], lp.index))
+    why = []
+    flag = None
+    for e, pos in ((en[0], True), (di[0], False)):
+        gs = [g for g in e.guards if g.rf is not None and not validated(g)]
+        flags = [g for g in gs if 'fit' in fmt(fl, g.rf) and 'fit_names' not in fmt(fl, g.rf)]
+        if len(flags) != 1 or flags[0].positive != pos:
+            why.append('%s(...) is not decided by the fit flag: %s' % (e.name, [g.text() for g in gs]))
+            continue
+        if flag is None:
+            flag = flags[0].rf
+        elif not fl.tab.equal(flag, flags[0].rf):
+            why.append('enable_fit and disable_fit are decided by different flags')
+        extra = [g for g in gs if g is not flags[0]]
+        if extra:
+            why.append('%s(key) also requires %s' % (e.name, ' and '.join(g.text()[:60] for g in extra)))
+        if not e.args or not fl.tab.equal(e.args[0], fl.tab.atom('idx', (item, fl.tab.const(0)))):
+            why.append('%s is called with %s, not the parameter name' % (e.name, [fmt(fl, a)[:40] for a in e.args]))
+    R.check('9.setup', 'DOM', site, stmt, not why, key='; '.join(w[:90] for w in why), detail='; '.join(why), loc=f.loc(di[0].node))
+
+
 def run(ix, R):
+    with R.guard('9.setup', 'DOM', 'taurex/parameter/parameterparser.py', 'fit flags'):
+        setup_flags(ix, R)
     _run(ix, R)
     from rules.common import memo_obligation
     memo_obligation(ix, R, 'M.memo', ['taurex/optimizer/optimizer.py', 'taurex/data/fittable.py'], 'the retrieval set-up')
